@@ -164,14 +164,15 @@ Print Assumptions C15_generated_containers_are_model.
 
 (* The translated inflate - prefix filter, `prefix in flattened` shortcut, containers created once per manifest entry,
    values grouped under "/".join(tokens[:-1]) in the order of chain(containers, flattened), containers populated IN PLACE
-   in the order of container_path_to_vals while other containers already hold references to them - returns what the hand
-   model returns, on all Python dicts (distinct keys) in which no path under the prefix is both a container and a leaf. *)
-Theorem C15_generated_inflate_refines_model : forall (m : sdict entry) (lm : sdict obj) (prefix : pystr) (o : obj),
+   in the order of container_path_to_vals while other containers already hold references to them - IS the hand model:
+   same object, or an exception on both sides (None), on all Python dicts (distinct keys) in which no path under the
+   prefix is both a container and a leaf. *)
+Theorem C15_generated_inflate_is_model : forall (m : sdict entry) (lm : sdict obj) (prefix : pystr),
   NoDup (map fst m) -> NoDup (map fst lm) ->
   (forall k, In k (map fst m) -> In k (map fst lm) -> split_head k <> encode prefix) ->
-  inflate_s m lm prefix = Some o -> inflate_run_gen m lm prefix = Some o.
-Proof. exact inflate_gen_refines. Qed.
-Print Assumptions C15_generated_inflate_refines_model.
+  inflate_run_gen m lm prefix = inflate_s m lm prefix.
+Proof. exact inflate_gen_is_model. Qed.
+Print Assumptions C15_generated_inflate_is_model.
 
 (* The round trip over the translated functions: C15_inflate_flatten with flatten and inflate replaced by the generated
    terms.  Every object, every prefix, every reordering of both dicts. *)
